@@ -575,7 +575,7 @@ def outer_dense(ctx, da, scheds, extra_progs):
     n = 0
     for src in progs:
         def go(sched):
-            env = B.chibi_env(da, {"CHIBI_VERIF_GC": sched} if sched else None)
+            env = B.chibi_env(da, {"CHIBI_VERIF_GC": sched, "CHIBI_VERIF_AUDIT": "1", "C02_NO_BOOT_GC": "1"} if sched else {"C02_NO_BOOT_GC": "1"})
             try:
                 r = subprocess.run([emb, src, "/dev/null"], capture_output=True, text=True, env=env, timeout=1500)
                 return r.returncode, r.stdout, r.stderr
@@ -592,6 +592,12 @@ def outer_dense(ctx, da, scheds, extra_progs):
                 continue
             n += 1
             ctx.count(1, key=(src, s), nontrivial=True)
+            ma = re.search(r"VERIF-AUDIT FAIL gc=\d+: ([^\n]*)", err)
+            if ma:
+                ctx.violation("audit:" + ma.group(1).replace(" ", "-")[:60], input="%s under CHIBI_VERIF_GC=%s (embedding harness)" % (src, s),
+                              expected="after every sweep the heap is tiled, marks are clear and every slot of a live object designates a live object",
+                              observed=ma.group(0),
+                              replay="CHIBI_VERIF_AUDIT=1 CHIBI_VERIF_GC=%s LD_LIBRARY_PATH=%s CHIBI_MODULE_PATH=%s/lib CHIBI_IGNORE_SYSTEM_PATH=1 ASAN_OPTIONS=detect_leaks=0 %s %s /dev/null" % (s, da, da, emb, src))
             if rc != rc0 or out != out0:
                 replay = "CHIBI_VERIF_GC=%s LD_LIBRARY_PATH=%s CHIBI_MODULE_PATH=%s/lib CHIBI_IGNORE_SYSTEM_PATH=1 ASAN_OPTIONS=detect_leaks=0 %s %s /dev/null" % (s, da, da, emb, src)
                 top = asan_top(err)
@@ -632,9 +638,7 @@ def run(ctx):
     except Exception as e:
         ctx.broken("gen:C02_Layout", "layout translator failed closed: %s" % e)
         return
-    ok = ctx.coq_obligations("Properties_C02")
-    if not ok:
-        _layout_search(ctx, d, facts)
+    ctx.coq_obligations("Properties_C02")     # a failing layout obligation also shows up as a mark/oracle disagreement in inner()
     exe = ctx.extract("C02")
     if exe is None:
         return
@@ -751,9 +755,6 @@ def _tiny_heap_probe(ctx, da):
         ctx.note("finding heap-size:bootstrap-crash reproduces (chibi-scheme -h 16k crashes during context bootstrap); it is not listed in known_findings.json, see notes/C02.md (e)3")
 
 
-def _layout_search(ctx, d, facts):
-    """the generated layout obligations failed: look for a program on which the missing reference loses data"""
-    pass
 
 
 def replay(ctx, data):
